@@ -154,11 +154,11 @@ Proof.
         rewrite Hjc in Hcl.
         apply (join_in_correct widths db Hwf k lw k2 rw L R Hlw Hrw HL HR items a j qq w2 Hitems Hit Hpf).
         set (c := match w2 with Some p2 => XAnd (XCmp CEq (lift1 a) (XCol 0 j true)) p2 | None => XCmp CEq (lift1 a) (XCol 0 j true) end) in *.
-        destruct (equi_keys c) as [|k0 ks] eqn:Ek.
-        -- destruct (has_sub c) eqn:Ehs; [discriminate|]. destruct (bare_ok [rw; lw] c) eqn:Ebo; cbn [negb] in Hcl; [|discriminate].
+        destruct (hash_path c) eqn:Ek.
+        2: { destruct (has_sub c) eqn:Ehs; [discriminate|]. destruct (bare_ok [rw; lw] c) eqn:Ebo; cbn [negb] in Hcl; [|discriminate].
            left. repeat split; auto. subst c. destruct w2 as [p2|]; cbn [pform]; rewrite vform_lift1, Hpf; cbn [vform andb]; [|reflexivity].
-           apply andb_true_iff in Hw2. destruct Hw2 as [Hp2 _]. exact Hp2.
-        -- destruct (pure_keys lw rw c) eqn:Epk; [|discriminate]. right. exact Epk.
+           apply andb_true_iff in Hw2. destruct Hw2 as [Hp2 _]. exact Hp2. }
+        destruct (pure_keys lw rw c) eqn:Epk; [|discriminate]. right. exact Epk.
       * (* EXISTS *)
         cbn [subs_wf] in Hsubs.
         destruct sq as [its s2 w2|]; [|discriminate]. destruct its as [|it [|it2 its]]; try discriminate.
@@ -171,10 +171,10 @@ Proof.
           [|exfalso; apply Hunm; unfold join_path; cbn [dec_tab]; rewrite HR; reflexivity].
         apply (join_exists_correct widths db Hwf k lw k2 rw L R Hlw Hrw HL HR items neg j qq w2 Hitems Hit).
         destruct w2 as [c|]; [|exact I].
-        destruct (equi_keys c) as [|k0 ks] eqn:Ek.
-        -- destruct (has_sub c) eqn:Ehs; [discriminate|]. destruct (bare_ok [rw; lw] c) eqn:Ebo; cbn [negb] in Hcl; [|discriminate].
-           left. repeat split; auto. apply andb_true_iff in Hw2. destruct Hw2 as [Hp2 _]. exact Hp2.
-        -- destruct (pure_keys lw rw c) eqn:Epk; [|discriminate]. right. exact Epk.
+        destruct (hash_path c) eqn:Ek.
+        2: { destruct (has_sub c) eqn:Ehs; [discriminate|]. destruct (bare_ok [rw; lw] c) eqn:Ebo; cbn [negb] in Hcl; [|discriminate].
+           left. repeat split; auto. apply andb_true_iff in Hw2. destruct Hw2 as [Hp2 _]. exact Hp2. }
+        destruct (pure_keys lw rw c) eqn:Epk; [|discriminate]. right. exact Epk.
     + (* not decorrelated: the filter path *)
       destruct (has_inex p) eqn:Hinex; [discriminate|].
       eapply filter_path_correct; eauto.
